@@ -632,7 +632,8 @@ struct Life
   Control::CheckpointControl cp;                        // the ONE control object of the history
   std::map<std::size_t, std::unique_ptr<ObjBase>> regobj;   // identifier index -> the user's registered object
   std::vector<std::unique_ptr<BinaryStream>> slot;          // the user's streams (1..3 given, 4 own)
-  Life(Ctx& kk) : k(kk), c(kk.c), pal(kk.c["palette"]), ids(kk.c["ids"]), comm(Dist::Comm::world()), cp(comm) {}
+  int progress_fd;                                          // >= 0: the step about to be executed is announced there
+  Life(Ctx& kk, int pfd = -1) : k(kk), c(kk.c), pal(kk.c["palette"]), ids(kk.c["ids"]), comm(Dist::Comm::world()), cp(comm), progress_fd(pfd) {}
 
   std::string idof(std::size_t i) const { return ids[i - 1].as_str(); }
   const vj::Value& pobj(long long o) const { return pal[std::size_t(o) - 1]; }
@@ -740,6 +741,7 @@ struct Life
       const vj::Value& o = ops[s]; const std::string op = o["op"].as_str();
       const std::size_t i = std::size_t(o["i"].as_int()); const long long ov = o["o"].as_int(); const std::size_t sl = std::size_t(o["s"].as_int());
       const std::string tag = tag0 + "/step " + std::to_string(s + 1) + " " + op + (i ? " '" + idof(i) + "'" : std::string()) + (sl ? " stream " + std::to_string(sl) : std::string());
+      if(progress_fd >= 0) { std::string m = "S " + std::to_string(s + 1) + "\n"; if(::write(progress_fd, m.data(), m.size())) {} }
       if(op == "add")
       {
         bool good; std::unique_ptr<ObjBase> obj = build(ov, tag, good); if(!good) return false;
@@ -761,13 +763,7 @@ struct Life
         // loaded from a COPY of the user's stream that is overwritten and destroyed right after the call: load owns its input
         std::unique_ptr<BinaryStream> t(new BinaryStream());
         t->write(slot[sl]->data(), std::streamsize(slot[sl]->container().size()));
-        if(o["res"].as_int() == 1)
-        {
-          // an EMPTY checkpoint: try in a child first, so that a crash is reported as such
-          int rc = in_child([&]() { cp.load(*t); });
-          if(rc != 0) { k.fail(tag + ": load of an empty checkpoint (saved with no registered object) " + child_end(rc)); k.why += " [load-empty-checkpoint]"; return false; }
-        }
-        cp.load(*t);
+        cp.load(*t);          // (a history that loads an EMPTY checkpoint runs in a child process as a whole, see run_life)
         for(char& ch : t->container()) ch = char(0xEE);
         t.reset();
       }
@@ -795,9 +791,62 @@ template<class DT, class IT>
 bool run_life(Ctx& k, const std::string& tag)
 {
   // pass 1: the state is observed after every call; pass 2 (a new control object): only after the last call
-  { Life<DT, IT> a(k); if(!a.run(true, tag)) return false; }
-  { Life<DT, IT> b(k); if(!b.run(false, tag)) return false; }
-  return true;
+  const vj::Value& ops = k.c["ops"];
+  std::size_t empty_load = 0;                                // first step that loads a checkpoint saved with NO registered object
+  for(std::size_t s = 0; s < ops.size() && empty_load == 0; ++s) if(ops[s]["op"].as_str() == "load" && ops[s]["res"].as_int() == 1) empty_load = s + 1;
+  if(empty_load == 0)
+  {
+    { Life<DT, IT> a(k); if(!a.run(true, tag)) return false; }
+    { Life<DT, IT> b(k); if(!b.run(false, tag)) return false; }
+    return true;
+  }
+  // Such a history runs as a whole in a child process which announces every step: a crash at or after the load of the empty
+  // checkpoint is reported as THAT (narrow signature "[load-empty-checkpoint]"), whatever it destroys later in the process.
+  int fds[2]; if(::pipe(fds) != 0) return k.fail(tag + ": pipe failed");
+  std::fflush(stdout); std::fflush(stderr); std::cout.flush(); std::cerr.flush();
+  { void* b[4]; (void)::backtrace(b, 4); }
+  pid_t p = ::fork();
+  if(p < 0) return k.fail(tag + ": fork failed");
+  if(p == 0)
+  {
+    ::close(fds[0]);
+    int fd = ::open("/dev/null", O_WRONLY); if(fd >= 0) { ::dup2(fd, 2); ::dup2(fd, 1); }
+    ::alarm(120);
+    { struct rlimit rl; rl.rlim_cur = rl.rlim_max = 0; ::setrlimit(RLIMIT_CORE, &rl); }
+    bool ok = false;
+    try
+    {
+      { Life<DT, IT> a(k, fds[1]); ok = a.run(true, tag); }
+      if(ok) { if(::write(fds[1], "S 0\n", 4)) {} Life<DT, IT> b(k, fds[1]); ok = b.run(false, tag); }
+    }
+    catch(const std::exception& e) { ok = k.fail(tag + ": exception " + e.what()); }
+    catch(...) { ok = k.fail(tag + ": unknown exception"); }
+    std::string m = ok ? std::string("K\n") : (std::string(k.precond ? "P " : "F ") + k.why + "\n");
+    if(::write(fds[1], m.data(), m.size())) {}
+    ::_exit(0);
+  }
+  ::close(fds[1]);
+  std::string buf; { char tmp[4096]; ssize_t n; while((n = ::read(fds[0], tmp, sizeof(tmp))) > 0) buf.append(tmp, std::size_t(n)); }
+  ::close(fds[0]);
+  int st = 0; if(::waitpid(p, &st, 0) != p) return k.fail(tag + ": waitpid failed");
+  std::size_t reached = 0; bool second = false; std::string verdict;
+  { std::istringstream is(buf); std::string l; while(std::getline(is, l)) { if(l.size() > 2 && l[0] == 'S') { std::size_t n = std::size_t(std::atol(l.c_str() + 2)); if(n == 0) second = true; else reached = n; } else verdict = l; } }
+  if(WIFEXITED(st) && WEXITSTATUS(st) == 0 && verdict == "K") return true;
+  if(WIFEXITED(st) && WEXITSTATUS(st) == 0 && verdict.size() > 2 && (verdict[0] == 'F' || verdict[0] == 'P'))
+  {
+    if(verdict[0] == 'P') return k.pre(verdict.substr(2));
+    // a disagreement AFTER the empty checkpoint was loaded is a consequence of that load (undefined behaviour there)
+    if(second || reached >= empty_load)
+      return k.fail(tag + "/step " + std::to_string(empty_load) + " load stream " + std::to_string(ops[empty_load - 1]["s"].as_int()) +
+                    ": load of an empty checkpoint (saved with no registered object), disagreement afterwards: " + verdict.substr(2) + " [load-empty-checkpoint]");
+    return k.fail(verdict.substr(2));
+  }
+  const std::string how = WIFSIGNALED(st) ? "was ended by signal " + std::to_string(WTERMSIG(st)) : "ended abnormally";
+  const std::string where = std::string(second ? "second pass, " : "") + "at step " + std::to_string(reached);
+  if(second || reached >= empty_load)            // (in the second pass the empty checkpoint has already been loaded once in this process)
+    return k.fail(tag + "/step " + std::to_string(empty_load) + " load stream " + std::to_string(ops[empty_load - 1]["s"].as_int()) +
+                  ": load of an empty checkpoint (saved with no registered object): the process " + how + " (" + where + ") [load-empty-checkpoint]");
+  return k.fail(tag + "/step " + std::to_string(reached) + " " + (reached ? ops[reached - 1]["op"].as_str() : std::string("start")) + ": the process " + how + " before the empty checkpoint was loaded");
 }
 
 vj::Value run_case(const vj::Value& c)
